@@ -104,4 +104,7 @@ def getKeys (kf : KeyFile) (g : Option Str) : Except Err (List Str) :=
   let ks := (kf.entries.filter (fun e => e.group == g)).map (·.key)
   if ks.isEmpty then .error .nokey else .ok ks
 
+/-- `econf_getPath`: the path recorded by the read, the empty string when there is none -/
+def getPath (kf : KeyFile) : Str := kf.path.getD []
+
 end Econf
